@@ -6,6 +6,8 @@ import (
 	"strconv"
 	"strings"
 	"time"
+
+	"github.com/relex/slog-agent/util"
 )
 
 // parseRFC3339Timestamp parse timestamp in RFC3339 format with fraction part of variable size
@@ -57,7 +59,8 @@ func parseRFC3339Timestamp(timeStr string, timezoneCache map[string]*time.Locati
 			}
 			tzName, tzOffset := z.Zone()
 			location = time.FixedZone(tzName, tzOffset)
-			timezoneCache[tzStr] = location
+			// the key must not point into the record's buffer, which is recycled for later records
+			timezoneCache[util.DeepCopyString(tzStr)] = location
 		}
 	} else {
 		location = time.Local
